@@ -4,7 +4,7 @@
 From Coq Require Import List Bool NArith String.
 From Verif.Gen Require Import Consts.
 From Verif.Model Require Import Agg.
-From Verif.Proofs Require Import Agg_spec Agg_lemmas C05_lemmas.
+From Verif.Proofs Require Import Agg_spec Agg_lemmas Agg_closed C05_lemmas.
 Import ListNotations.
 
 (* Refinement: for every well-formed configuration and every history of records and resets in
@@ -43,6 +43,132 @@ Theorem C05_reset : forall c ex sh0,
 Proof. exact reset_refines. Qed.
 Print Assumptions C05_reset.
 
+(* ================================================================ the closed forms of the property statement
+   Derived from C05_aggregation and spec_step alone (Proofs/Agg_closed.v).  Quantifier: every
+   well-formed configuration c, every history h inside the exporter contract
+     wf_history c h = typed_history c h  (the template the code assumes, same template per flow)
+                   && for every flow: every record has end > start and uint64 counters, the flow's
+                      correlation requirement is constant (a flow that needs no correlation is one
+                      reporting stream feeding both nodes' fields), and per reporting node end
+                      times strictly increase and totals do not decrease,
+   every 5-tuple k with an aggregated record, f = the abstraction of that record (per-node
+   accumulators nd SrcNode f / nd DstNode f and the common fields), evs = events_of c h k.
+   Positions i index StatsElements; is_delta c i = the name contains "Delta". *)
+
+(* (a) the record carries the latest end time: the maximum over all records of k, which is the end
+   time of the latest reporter's record; each node's own end field is that of its latest record *)
+Theorem C05_latest_end : forall c h k f,
+  wf_config c = true -> wf_history c h = true -> absf c (lookup (run c h) k) = Some f ->
+  f_end f = maxl (ends (events_of c h k)) /\
+  (exists x, latest (events_of c h k) = Some x /\ f_end f = o_end (snd x)) /\
+  (forall n, a_end (nd n f) = node_end n (events_of c h k)).
+Proof. exact cor_latest_end. Qed.
+Print Assumptions C05_latest_end.
+
+(* (b) each total counter, per node: the value of the latest record that node sent (0: none yet) *)
+Theorem C05_node_total_is_latest : forall c h k f,
+  wf_config c = true -> wf_history c h = true -> absf c (lookup (run c h) k) = Some f ->
+  forall n i, (i < nstats c)%nat -> is_delta c i = false ->
+  nth i (a_stat (nd n f)) 0%N = node_total n i (events_of c h k).
+Proof. exact cor_node_total. Qed.
+Print Assumptions C05_node_total_is_latest.
+(* (b) the common total, unconditionally: the code keeps max(common, incoming) whenever the incoming
+   record carries the latest end time, so it is the maximum over the records that carried the
+   latest end time on arrival (fronts) ... *)
+Theorem C05_common_total_max : forall c h k f,
+  wf_config c = true -> wf_history c h = true -> absf c (lookup (run c h) k) = Some f ->
+  forall i, (i < nstats c)%nat -> is_delta c i = false ->
+  nth i (f_stat f) 0%N = maxl (col i (fronts (events_of c h k))).
+Proof. exact cor_common_total_max. Qed.
+Print Assumptions C05_common_total_max.
+(* ... and under the statement's flow-level "non-decreasing totals" (flow_mono: along the records
+   that carry the latest end time on arrival, totals do not decrease) it is the value of the
+   record with the latest end time *)
+Theorem C05_common_total_is_latest : forall c h k f,
+  wf_config c = true -> wf_history c h = true -> absf c (lookup (run c h) k) = Some f ->
+  flow_mono c (events_of c h k) = true ->
+  exists x, latest (events_of c h k) = Some x /\
+  forall i, (i < nstats c)%nat -> is_delta c i = false -> nth i (f_stat f) 0%N = stat i (snd x).
+Proof. exact cor_common_total_latest. Qed.
+Print Assumptions C05_common_total_is_latest.
+
+(* (c) each delta counter, per node: the sum (mod 2^64) over the records that node sent since the
+   counters were last reset; the common delta is that sum for the latest reporter's node *)
+Theorem C05_node_delta_is_sum : forall c h k f,
+  wf_config c = true -> wf_history c h = true -> absf c (lookup (run c h) k) = Some f ->
+  forall n i, (i < nstats c)%nat -> is_delta c i = true ->
+  nth i (a_stat (nd n f)) 0%N = sum64 (col i (node_recs n (since_reset (events_of c h k)))).
+Proof. exact cor_node_delta. Qed.
+Print Assumptions C05_node_delta_is_sum.
+Theorem C05_common_delta : forall c h k f,
+  wf_config c = true -> wf_history c h = true -> absf c (lookup (run c h) k) = Some f ->
+  forall i, (i < nstats c)%nat -> is_delta c i = true ->
+  nth i (f_stat f) 0%N =
+  sum64 (col i (node_recs (latest_node (events_of c h k)) (since_reset (events_of c h k)))).
+Proof. exact cor_common_delta. Qed.
+Print Assumptions C05_common_delta.
+
+(* (d) throughput, per node (node_tp): [0; 0] when the node sent nothing since the last reset,
+   otherwise (8 x growth of the octet total mod 2^64) / growth of the end time between the node's
+   latest record and its previous one; the node's first record is measured from its flow start
+   with growth = its total (see C05_throughput_reading).  The common pair follows the latest reporter *)
+Theorem C05_node_throughput : forall c h k f,
+  wf_config c = true -> wf_history c h = true -> absf c (lookup (run c h) k) = Some f ->
+  forall n, a_tp (nd n f) = node_tp n (events_of c h k).
+Proof. exact cor_node_tp. Qed.
+Print Assumptions C05_node_throughput.
+Theorem C05_common_throughput : forall c h k f,
+  wf_config c = true -> wf_history c h = true -> absf c (lookup (run c h) k) = Some f ->
+  f_tp f = node_tp (latest_node (events_of c h k)) (events_of c h k).
+Proof. exact cor_common_tp. Qed.
+Print Assumptions C05_common_throughput.
+Theorem C05_throughput_reading : forall n evs,
+  (forall o, node_recs n evs = [o] -> node_recs n (since_reset evs) <> [] ->
+     node_tp n evs = [mul8 (o_oct o) / (o_end o - o_start o); mul8 (o_roct o) / (o_end o - o_start o)]%N) /\
+  (forall l p o, node_recs n evs = l ++ [p; o] -> node_recs n (since_reset evs) <> [] ->
+     node_tp n evs = [mul8 (o_oct o - o_oct p) / (o_end o - o_end p);
+                      mul8 (o_roct o - o_roct p) / (o_end o - o_end p)]%N) /\
+  (node_recs n (since_reset evs) = [] -> node_tp n evs = [0; 0]%N).
+Proof. exact cor_throughput_reading. Qed.
+Print Assumptions C05_throughput_reading.
+
+(* the common fields follow the node that reported the latest end time *)
+Theorem C05_common_follows_latest_reporter : forall c h k f,
+  wf_config c = true -> wf_history c h = true -> absf c (lookup (run c h) k) = Some f ->
+  f_end f = a_end (nd (latest_node (events_of c h k)) f) /\
+  f_tp f = a_tp (nd (latest_node (events_of c h k)) f) /\
+  forall i, (i < nstats c)%nat -> is_delta c i = true ->
+    nth i (f_stat f) 0%N = nth i (a_stat (nd (latest_node (events_of c h k)) f)) 0%N.
+Proof. exact cor_common_follows. Qed.
+Print Assumptions C05_common_follows_latest_reporter.
+
+(* (e) a reset clears the delta and throughput fields only ... *)
+Theorem C05_reset_clears_only : forall c h k f,
+  wf_config c = true -> wf_history c h = true -> absf c (lookup (run c h) k) = Some f ->
+  exists f', absf c (lookup (run c (h ++ [OpReset k])) k) = Some f' /\
+    (forall n, a_end (nd n f') = a_end (nd n f) /\ a_tp (nd n f') = [0; 0]%N /\
+       forall i, (i < nstats c)%nat ->
+         nth i (a_stat (nd n f')) 0%N = if is_delta c i then 0%N else nth i (a_stat (nd n f)) 0%N) /\
+    f_end f' = f_end f /\ f_tp f' = [0; 0]%N /\ f_reason f' = f_reason f /\ f_tcp f' = f_tcp f /\
+    (forall i, (i < nstats c)%nat -> nth i (f_stat f') 0%N = if is_delta c i then 0%N else nth i (f_stat f) 0%N).
+Proof. exact cor_reset_clears. Qed.
+Print Assumptions C05_reset_clears_only.
+(* ... and after a reset of k the delta fields are the sums over the records since that reset *)
+Theorem C05_delta_since_reset : forall c h1 h2 k f, wf_config c = true ->
+  wf_history c (h1 ++ OpReset k :: h2) = true -> no_reset_of k h2 = true ->
+  absf c (lookup (run c (h1 ++ OpReset k :: h2)) k) = Some f ->
+  forall n i, (i < nstats c)%nat -> is_delta c i = true ->
+    nth i (a_stat (nd n f)) 0%N = sum64 (col i (node_recs n (events_of c h2 k))).
+Proof. exact cor_delta_since_reset. Qed.
+Print Assumptions C05_delta_since_reset.
+
+(* (f) exactly one flow record per distinct 5-tuple *)
+Theorem C05_one_flow_per_key : forall c h, wf_config c = true -> typed_history c h = true ->
+  List.length (run c h) = List.length (flow_keys h) /\
+  forall k, lookup (run c h) k <> None <-> In k (flow_keys h).
+Proof. exact cor_one_flow_per_key. Qed.
+Print Assumptions C05_one_flow_per_key.
+
 (* the hypotheses are satisfiable: the configurations in use are well formed ... *)
 Example C05_configs_wf :
   wf_config (std_config reg_antrea) = true /\ wf_config (ant_config reg_antrea) = true.
@@ -65,3 +191,22 @@ Example C05_consts_match_source :
   rule_action_reject = c_registry_NetworkPolicyRuleActionReject /\
   end_of_flow_reason = c_registry_EndOfFlowReason.
 Proof. repeat split; reflexivity. Qed.
+
+(* the exporter contract is satisfiable: the worked history (and a variant with a reset) is inside
+   it; a history whose source end time does not increase is outside *)
+Example C05_contract_nonvacuous :
+  wf_history ex_cfg ex_history = true /\ wf_history ex_cfg ex_history_reset = true /\
+  wf_history ex_cfg [OpRec (ex_rec true 10 1000 1000); OpRec (ex_rec true 10 3000 2000)] = false.
+Proof. exact ex_contract_examples. Qed.
+(* the flow-level precondition of C05_common_total_is_latest is satisfiable, and it is needed: the
+   worked history is inside the per-node contract, the destination reports the latest end time
+   with octet total 2800 after the source's 3000, and the common octet total stays 3000 (= max) *)
+Example C05_flow_mono_nonvacuous :
+  wf_history ex_cfg (firstn 2 ex_history) = true /\
+  flow_mono ex_cfg (events_of ex_cfg (firstn 2 ex_history) ex_key) = true.
+Proof. exact ex_history_prefix_flow_mono. Qed.
+Example C05_common_total_needs_flow_mono :
+  flow_mono ex_cfg (events_of ex_cfg ex_history ex_key) = false /\
+  option_map (fun fl => nth 2 (f_stat (abs ex_cfg (fl_rec fl))) 0%N) (lookup (run ex_cfg ex_history) ex_key) = Some 3000%N /\
+  option_map (fun x : frec => stat 2 (snd x)) (latest (events_of ex_cfg ex_history ex_key)) = Some 2800%N.
+Proof. exact ex_history_not_flow_mono. Qed.
